@@ -12,7 +12,7 @@ import json
 from . import seqlib as S
 
 PROPERTY = "C04"
-DRIVER = "TraitsVerif/Driver/Seq.lean"
+DRIVERS = {"tlo:": "TraitsVerif/Driver/Seq.lean", "nl:": "TraitsVerif/Driver/Nested.lean"}
 PROPS_MODULES = ["TraitsVerif.Props.C04"]
 TRANSLATORS = ["mutators"]
 RULE = ("List(T, minlen, maxlen) traits on real HasTraits objects: exhaustive single mutator calls on lists of "
@@ -25,7 +25,9 @@ RULE = ("List(T, minlen, maxlen) traits on real HasTraits objects: exhaustive si
 TRUSTED = ["inner traits are arbitrary validators in the theorems; the concrete item traits used by the "
            "correspondence are Int, Range(low=0), a coercing x%7 TraitType and a k-th-call-fails TraitType",
            "Py.List model of CPython list (validated by C05's `pl` stream)"]
-ASSUMPTIONS = ["stand-alone deep-copied / unpickled containers (owner None) do not validate by design; that is C14's subject"]
+ASSUMPTIONS = ["stand-alone deep-copied / unpickled containers (owner None) do not validate by design; that is C14's subject",
+               "Model/Nested.lean is a value tree without aliasing: `outer *= n` (n >= 2), which makes several positions hold the "
+               "same inner TraitListObject, is excluded from the model-compared nested stream and covered by the oracle-only stream"]
 
 _classes = {}
 LAST_FIRED = []   # per op of the last run_impl call: did the k-th-call-fails validator fire?
@@ -86,6 +88,7 @@ def corpus():
         "tlo:2:2|id|[1,2]|di 5;di 0;ss 0 1 N [7,8];ss 0 1 N [9];ss N N -1 [1];cl;rm 1;in 0 1;po -1",
         "tlo:0:4|mod7|[9,8]|ss N N 2 [15];ex [20,21];ex [1];ia [3];im -1;as [50,51,52,53]",
         "tlo:0:3|failk:1:ValueError|[]|ex [1,2];ex [1];as [1,2,3];ss 0 0 N [4,5]",
+        "nl:0:3:0:2|rejneg|[[1],[2,3]]|o ap [4];o ap [5,6,7];i 0 ap 9;i 0 ap 9;i 1 si 0 -1;o ex [[1],[2]];as [[1,2],[3]];as [[1,2,3]];i 5 ap 1;o di 0",
     ]
 
 
@@ -128,6 +131,146 @@ def generate(rng, tier):
         yield "%s|%s|%s|%s" % (kind, v, S.show_list(init_l), ";".join(ops))
     for _ in range(nn):
         yield "#" + json.dumps(random_nested_case(rng), separators=(",", ":"))
+    for _ in range(nn):
+        yield random_nl_case(rng)
+
+
+# ----------------------------------------------------------------------------
+# nested List(List(T)) traits compared with Model/Nested.lean (driver `nl:`)
+# ----------------------------------------------------------------------------
+
+def _nl_list(rng, n=None, maxlen=3):
+    n = rng.randint(0, maxlen) if n is None else n
+    return [rng.choice([0, 1, 2, 3, 5, 8, 9, -1, -4]) if rng.random() < 0.85 else rng.randint(-9, 20) for _ in range(n)]
+
+
+def _nl_show(x):
+    return json.dumps(x, separators=(",", ":"))
+
+
+def random_nl_case(rng):
+    omin, omax = rng.choice([(0, 3), (1, 3), (0, 2), (2, 4)])
+    imin, imax = rng.choice([(0, 2), (1, 2), (0, 3), (1, 3)])
+    v = rng.choice(["id", "rejneg", "rejneg", "mod7"])
+    init = [[rng.choice([0, 1, 2, 3, 5]) for _ in range(rng.randint(imin, imax))] for _ in range(rng.randint(omin, omax))]
+    ops = []
+    for _ in range(rng.randint(1, 10)):
+        r = rng.random()
+        if r < 0.45:    # inner op
+            k = rng.randint(0, 3)
+            o = S.random_op(rng, 2)
+            while o.split()[0] in ("rm", "so", "sk") or any(m in o for m in ("g[", "t[", "i[")):
+                o = S.random_op(rng, 2)
+            ops.append("i %d %s" % (k, o))
+        elif r < 0.92:  # outer op with list items
+            m = rng.choice(["ap", "ex", "ia", "in", "si", "ss", "di", "ds", "po", "cl", "rv", "im"])
+            il = lambda: _nl_show(_nl_list(rng))  # noqa: E731
+            ils = lambda: _nl_show([_nl_list(rng) for _ in range(rng.randint(0, 3))])  # noqa: E731
+            sl = lambda: "%s %s %s" % (S.show_opt(rng.choice([None, 0, 1, -1, 2])), S.show_opt(rng.choice([None, 1, 2, 5, -1])),  # noqa: E731
+                                       S.show_opt(rng.choice([None, 1, 1, 2, -1])))
+            ops.append("o " + {"ap": "ap " + il(), "ex": "ex " + ils(), "ia": "ia " + ils(), "in": "in %d %s" % (rng.randint(-2, 3), il()),
+                               "si": "si %d %s" % (rng.randint(-3, 3), il()), "ss": "ss %s %s" % (sl(), ils()),
+                               "di": "di %d" % rng.randint(-3, 3), "ds": "ds " + sl(), "po": "po %d" % rng.randint(-3, 3),
+                               "cl": "cl", "rv": "rv",
+                               # `outer *= n` with n >= 2 makes several positions hold the SAME inner TraitListObject
+                               # (aliasing); the value-tree model has no aliasing, so that is left to the oracle stream
+                               "im": "im %d" % rng.choice([0, 1, 1, -1])}[m])
+        else:
+            ops.append("as " + _nl_show([_nl_list(rng) for _ in range(rng.randint(0, 4))]))
+    return "nl:%d:%d:%d:%d|%s|%s|%s" % (omin, omax, imin, imax, v, _nl_show(init), ";".join(ops))
+
+
+_nl_classes = {}
+
+
+def _nl_class(key):
+    if key not in _nl_classes:
+        from traits.api import HasTraits, List
+        omin, omax, imin, imax, v = key
+        item, _ = _item_trait(v)
+        _nl_classes[key] = type("NL", (HasTraits,), {"x": List(List(item, minlen=imin, maxlen=imax), minlen=omin, maxlen=omax)})
+    return _nl_classes[key]
+
+
+def run_nl(case):
+    from traits.trait_list_object import TraitListObject
+    kind, v, init, ops = case.split("|")
+    _, omin, omax, imin, imax = kind.split(":")
+    omin, omax, imin, imax = int(omin), int(omax), int(imin), int(imax)
+    cls = _nl_class((omin, omax, imin, imax, v))
+    hits, tags, outs = [], set(), []
+    try:
+        a = cls(x=json.loads(init))
+    except Exception as e:
+        return "err " + S.exc_name(e), [], ["nl-init-err"]
+
+    def snap():
+        return [list(i) for i in a.x]
+
+    def check(sig):
+        x = a.x
+        if not isinstance(x, TraitListObject) or not (omin <= len(x) <= omax):
+            hits.append(_hit("nested-invalid:outer:" + sig, "outer list type/length", value=snap()))
+        for inner in x:
+            if not isinstance(inner, TraitListObject):
+                hits.append(_hit("nested-invalid:inner-not-wrapped:" + sig, "inner list is a %s" % type(inner).__name__, value=snap()))
+            elif not (imin <= len(inner) <= imax):
+                hits.append(_hit("nested-invalid:inner-length:" + sig, "inner length %d outside %d..%d" % (len(inner), imin, imax), value=snap()))
+            if not all(_valid_item(v, y) for y in inner):
+                hits.append(_hit("nested-invalid:leaf:" + sig, "invalid leaf", value=snap()))
+    for opstr in [o for o in ops.split(";") if o.strip()]:
+        w = opstr.split()
+        before = snap()
+        exc = None
+        try:
+            if w[0] == "as":
+                tags.add("nl:as")
+                a.x = json.loads(w[1])
+            else:
+                target = a.x if w[0] == "o" else a.x[int(w[1])]
+                rest = w[1:] if w[0] == "o" else w[2:]
+                tags.add("nl:%s:%s" % (w[0], rest[0]))
+                if w[0] == "o":
+                    k = rest[0]
+                    J = json.loads
+                    P = S.parse_opt
+                    if k == "ap":
+                        target.append(J(rest[1]))
+                    elif k == "ex":
+                        target.extend(J(rest[1]))
+                    elif k == "ia":
+                        target += J(rest[1])
+                    elif k == "in":
+                        target.insert(int(rest[1]), J(rest[2]))
+                    elif k == "si":
+                        target[int(rest[1])] = J(rest[2])
+                    elif k == "ss":
+                        target[slice(P(rest[1]), P(rest[2]), P(rest[3]))] = J(rest[4])
+                    elif k == "di":
+                        del target[int(rest[1])]
+                    elif k == "ds":
+                        del target[slice(P(rest[1]), P(rest[2]), P(rest[3]))]
+                    elif k == "po":
+                        target.pop(int(rest[1]))
+                    elif k == "cl":
+                        target.clear()
+                    elif k == "rv":
+                        target.reverse()
+                    elif k == "im":
+                        target *= int(rest[1])
+                else:
+                    S.apply_op(target, S.parse_op(" ".join(rest)))
+        except Exception as e:
+            exc = e
+        sig = w[0] + ":" + (w[1] if w[0] == "o" else (w[2] if w[0] == "i" else "as"))
+        check(sig)
+        if exc is not None:
+            if snap() != before:
+                hits.append(_hit("failed-op-mutated:nested:" + sig, "failing operation changed the nested value", before=before, after=snap()))
+            outs.append("err " + S.exc_name(exc))
+        else:
+            outs.append("ok " + _nl_show(snap()))
+    return " ; ".join(outs), hits, tags
 
 
 def _hit(sig, what, **kw):
@@ -150,6 +293,8 @@ def _valid_item(vspec, x):
 def run_impl(case):
     if case.startswith("#"):
         return run_nested(json.loads(case[1:]))
+    if case.startswith("nl:"):
+        return run_nl(case)
     from traits.api import TraitError
     from traits.trait_list_object import TraitListObject
     kind, vspec, init, ops = case.split("|")
